@@ -10,7 +10,8 @@ import planlib as pl
 MODULES = ["JxlModel.Props.C01"]
 ALLOC_LIMIT = 128 << 20          # as /repo/fuzz/fuzz_targets/decode.rs
 
-OPS = ["M", "A", "J", "RA", "R0", "R1", "L", "C", "Q", "X", "Z", "P0:0:3:3", "P1:1:70:70", "P0:0:100000:100000"]
+OPS = ["M", "A", "J", "RA", "R0", "R1", "L", "C", "Q", "X", "Z", "P0:0:3:3", "P1:1:70:70", "P0:0:100000:100000",
+       "Q0", "Q3", "Q127", "Q128", "Q129", "Q130", "Q131", "Q132", "Q143", "Q144", "Q200"]
 
 
 def corpus_files():
